@@ -72,7 +72,11 @@ type RVal struct {
 
 type RType struct{ T types.Type }
 
-type Chan struct{}
+type Chan struct {
+	Cap    int
+	Buf    []Value
+	Closed bool
+}
 
 // MapIter is the state of a Range over a map or string.
 type MapIter struct {
